@@ -428,6 +428,40 @@ func runLockToken(c *core.Ctx) {
 				waits = true
 			}
 		}
+		if !waits {
+			// the take may be a step of its own (dr.requestsBlock()): then every function that calls the step is the
+			// collector and does the waiting
+			var step *ssa.Function
+			for _, f := range c.P.Funcs("internal/store") {
+				if c.P.FuncName(f) == op.Func {
+					step = f
+				}
+			}
+			if step != nil {
+				sites := c.P.Callers(step)
+				all := len(sites) > 0
+				for _, site := range sites {
+					g := site.Parent()
+					if g == nil || site.Common().StaticCallee() != step {
+						all = false
+						continue
+					}
+					gw := false
+					for _, w := range e.Waits {
+						if w.Func == c.P.FuncName(g) && typeOfClass(e.Classes[w.Class].Name) == typeOfClass(e.Classes[op.Class].Name) {
+							gw = true
+						}
+					}
+					if !gw {
+						all = false
+					}
+				}
+				waits = all
+				if all {
+					collector[op.Func] = true // the step takes the token on behalf of the collectors that call it
+				}
+			}
+		}
 		c.Check(waits, "collector-waits:"+kn(op.Func), op.Pos, "%s takes the repository token and waits for the requests that hold the repository before it works on it: %v — otherwise the collection overlaps in-flight requests (a blob uploaded by a request that still holds the repository can be swept under it)", op.Func, waits)
 		if !waits {
 			collector[op.Func] = true
